@@ -337,16 +337,29 @@ func decode(r *runner, dec string, data []byte) (after func(), err error) {
 		return func() { r.cffAccessors(f) }, nil
 
 	case "cmap":
+		// the property's decoder is "cmap.Decode+Get": selecting and decoding the subtables is
+		// part of the time/allocation-bounded decode (a Get error is an ordinary result)
 		t, err := cmap.Decode(data)
 		if err != nil {
 			return nil, err
 		}
+		for _, k := range sortedKeys(t) {
+			t.Get(k)
+		}
 		return func() { r.cmapAccessors(t, true) }, nil
 
 	case "glyf":
+		// the property's decoder is "glyf.Decode+SimpleGlyph.Decode"
 		gg, err := glyf.Decode(splitGlyf(data))
 		if err != nil {
 			return nil, err
+		}
+		for _, g := range gg {
+			if g != nil {
+				if sg, ok := g.Data.(glyf.SimpleGlyph); ok {
+					sg.Decode()
+				}
+			}
 		}
 		return func() {
 			r.glyphAccessors(gg)
